@@ -40,8 +40,8 @@ Definition bfd (bytes delta : Z) : option Z :=
 (** * Pacer *)
 Record pacer := { p_budget : Z; p_mds : Z; p_last : Z }.
 
-(** adjustedBandwidth: bw is getBandwidth() in bits/s (uint64). *)
-Definition adj_bw (bw : Z) : Z := u64 (bw / cc_bytesPerSecond * 5) / 4.
+(** adjustedBandwidth: bw is getBandwidth() in bits/s (uint64); never 0 (max(bw*5/4, 1)). *)
+Definition adj_bw (bw : Z) : Z := Z.max (u64 (bw / cc_bytesPerSecond * 5) / 4) 1.
 
 Definition p_maxBurstPkts (p : pacer) : Z := i64 (cc_maxBurstSizePackets * p_mds p).
 
@@ -166,7 +166,9 @@ Definition new_sender_w (m : Z) (r : bool) (icw imax srtt0 : Z) : sender :=
                exited := false; cwnd := icw; ssthresh := cc_maxByteCount; nacked := 0;
                initCwnd := icw; initMaxCwnd := imax;
                mds := m; hs := hs_init; pc := {| p_budget := 0; p_mds := 0; p_last := 0 |} |} in
-  upd s0 (ls s0) (la s0) (lc s0) (exited s0) (cwnd s0) (ssthresh s0) (nacked s0) (mds s0) (hs s0) (new_pacer (bw_est s0 srtt0)).
+  (* c.pacer = newPacer(c.BandwidthEstimate); c.pacer.SetMaxDatagramSize(initialMaxDatagramSize) *)
+  upd s0 (ls s0) (la s0) (lc s0) (exited s0) (cwnd s0) (ssthresh s0) (nacked s0) (mds s0) (hs s0)
+      (pacer_set_mds (new_pacer (bw_est s0 srtt0)) m).
 
 (** NewCubicSender(clock, rtt, stats, initialMaxDatagramSize = m, reno, qlogger) — what production calls. *)
 Definition new_sender (m : Z) (r : bool) (srtt0 : Z) : sender :=
